@@ -5,6 +5,7 @@
  *   k6_threads --items <file> --script <file> --mode interleave            ops in file order, one thread
  *   k6_threads --items <file> --script <file> --mode solo --only <m>       only manager m exists and runs
  *   k6_threads --items <file> --script <file> --mode threads --seed <n>    one thread per manager, randomised schedule
+ *   k6_threads --sessrace <threads> <calls per thread>                      concurrent imb_set_session on private managers
  *   k6_threads --initrace <threads> <seconds>                              concurrent creation of private managers
  *   k6_threads --witness [--iters N]                                       imb_get_errno() fall-back probes
  *
@@ -638,6 +639,97 @@ initrace(const int nthreads, const double secs)
         return 0;
 }
 
+/* ---- concurrent imb_set_session(): the process-wide session counter ---- */
+/* Alone, N calls hand out N distinct session ids (the id is an injective function of an atomic counter).  With several
+ * threads, each on its own manager, all ids handed out in the process must still be distinct. */
+#define SR_MAXT 16
+static uint32_t *sr_ids[SR_MAXT];
+static long sr_n;
+static pthread_barrier_t sr_bar;
+
+static void *
+sr_worker(void *arg)
+{
+        const int t = (int) (intptr_t) arg;
+        IMB_MGR *m = alloc_mb_mgr(0);
+        IMB_JOB tmpl;
+
+        if (t % 3 == 0)
+                init_mb_mgr_sse(m);
+        else if (t % 3 == 1)
+                init_mb_mgr_avx2(m);
+        else
+                init_mb_mgr_avx512(m);
+        memset(&tmpl, 0, sizeof(tmpl));
+        tmpl.cipher_mode = IMB_CIPHER_CBC;
+        tmpl.cipher_direction = IMB_DIR_ENCRYPT;
+        tmpl.key_len_in_bytes = 16;
+        tmpl.hash_alg = IMB_AUTH_NULL;
+        tmpl.chain_order = IMB_ORDER_CIPHER_HASH;
+        pthread_barrier_wait(&sr_bar);
+        for (long i = 0; i < sr_n; i++)
+                sr_ids[t][i] = imb_set_session(m, &tmpl);
+        free_mb_mgr(m);
+        return NULL;
+}
+
+static int
+cmp_u32(const void *a, const void *b)
+{
+        const uint32_t x = *(const uint32_t *) a, y = *(const uint32_t *) b;
+
+        return x < y ? -1 : x > y;
+}
+
+static int
+sessrace(const int nthreads, const long n)
+{
+        pthread_t th[SR_MAXT];
+        const int T = nthreads > SR_MAXT ? SR_MAXT : nthreads;
+
+        sr_n = n;
+        /* alone first: one thread, T * n calls */
+        uint32_t *all = malloc((size_t) T * (size_t) n * sizeof(uint32_t));
+
+        if (!all)
+                return 2;
+        pthread_barrier_init(&sr_bar, NULL, 1);
+        sr_ids[0] = all;
+        sr_n = (long) T * n;
+        sr_worker((void *) (intptr_t) 0);
+        qsort(all, (size_t) sr_n, sizeof(uint32_t), cmp_u32);
+        long dup_alone = 0;
+
+        for (long i = 1; i < sr_n; i++)
+                dup_alone += all[i] == all[i - 1];
+        pthread_barrier_destroy(&sr_bar);
+        /* concurrently */
+        sr_n = n;
+        pthread_barrier_init(&sr_bar, NULL, (unsigned) T);
+        for (int t = 0; t < T; t++)
+                sr_ids[t] = all + (size_t) t * (size_t) n;
+        for (int t = 0; t < T; t++)
+                pthread_create(&th[t], NULL, sr_worker, (void *) (intptr_t) t);
+        for (int t = 0; t < T; t++)
+                pthread_join(th[t], NULL);
+        long dup_within = 0;
+
+        for (int t = 0; t < T; t++) {
+                qsort(sr_ids[t], (size_t) n, sizeof(uint32_t), cmp_u32);
+                for (long i = 1; i < n; i++)
+                        dup_within += sr_ids[t][i] == sr_ids[t][i - 1];
+        }
+        qsort(all, (size_t) T * (size_t) n, sizeof(uint32_t), cmp_u32);
+        long dup_all = 0;
+
+        for (long i = 1; i < (long) T * n; i++)
+                dup_all += all[i] == all[i - 1];
+        printf("SR threads=%d calls_per_thread=%ld dup_alone=%ld dup_within_manager=%ld dup_overall=%ld\n", T, n, dup_alone,
+               dup_within, dup_all);
+        free(all);
+        return 0;
+}
+
 /* ---- witnesses for the imb_get_errno() fall-back ---- */
 static volatile int w_stop;
 static IMB_MGR *wA, *wB;
@@ -768,7 +860,14 @@ main(int argc, char **argv)
                         g_seed = strtoull(argv[++i], NULL, 0);
                 else if (!strcmp(argv[i], "--witness"))
                         do_witness = 1;
-                else if (!strcmp(argv[i], "--initrace") && i + 2 < argc) {
+                else if (!strcmp(argv[i], "--sessrace") && i + 2 < argc) {
+                        const int nt = atoi(argv[++i]);
+                        const long n = atol(argv[++i]);
+
+                        setvbuf(stdout, NULL, _IOFBF, 1 << 16);
+                        alarm(120);
+                        return sessrace(nt, n);
+                } else if (!strcmp(argv[i], "--initrace") && i + 2 < argc) {
                         const int nt = atoi(argv[++i]);
                         const double secs = atof(argv[++i]);
 
